@@ -108,3 +108,35 @@ package cmd
 //@   ensures [seeded_exactly_once] ghost(ncalls_Seed) == old(ghost(ncalls_Seed)) + 1
 //@   ensures [a_given_seed_is_left_as_it_is] old(seed) != -1 ==> seed == old(seed)
 //@   ensures [the_default_seed_means_the_clock_whether_written_out_or_omitted] old(seed) == -1 ==> ghost(ncalls_Now) == old(ghost(ncalls_Now)) + 1
+
+// ---------------------------------------------------------------------------
+// prune (property C06): the names handed to RemoveTips
+// specificTips: exactly the tip names of the reference tree that are no tip name of the compared tree.
+// RunE: tip file first, then compared tree, then random sample, then command-line names; always with --revert as given
+// ---------------------------------------------------------------------------
+
+//@ func cmd.specificTips
+//@   flag noframe
+//@   requires ref != nil && comp != nil && INV12()
+//@   return [only_names_of_reference_tips_absent_from_the_compared_tree] forall k int :: {result0[k]} 0 <= k && k < len(result0) ==> !has(compmap, result0[k])
+//@   loop 1
+//@     invariant [compared_tip_names_registered_so_far] compmap != nil
+//@   loop 2
+//@     invariant [only_absent_names_collected] compmap != nil && (forall k int :: {spectips[k]} 0 <= k && k < len(spectips) ==> !has(compmap, spectips[k]))
+//@     step [a_reference_tip_is_collected_exactly_when_its_name_is_absent] len(next(spectips)) == len(spectips) + ((len(n.neigh) == 1 && !has(compmap, n.name)) ? 1 : 0) && ((len(n.neigh) == 1 && !has(compmap, n.name)) ==> next(spectips)[len(spectips)] == n.name)
+
+// reads one name per line (thin)
+//@ func cmd.parseTipsFile
+//@   allocates []string, iface
+//@   assigns nothing
+
+//@ func cmd.pruneCmd.RunE
+//@   flag noframe
+//@   recv treechan [message_is_a_tree_or_an_error] msg.Err == nil ==> msg.Tree != nil
+//@   call (*tree.Tree).RemoveTips [on_the_tree_just_read_with_revert_as_given] a0 == reftree.Tree && a1 == revert
+//@   call (*tree.Tree).RemoveTips [the_tip_file_comes_first] tipfile != "none" ==> a2 == tips
+//@   call (*tree.Tree).RemoveTips [then_the_tips_absent_from_the_compared_tree] tipfile == "none" && comptree != nil ==> a2 == specificTipNames
+//@   call (*tree.Tree).RemoveTips [then_a_random_sample] tipfile == "none" && comptree == nil && randomtips > 0 ==> a2 == sampled
+//@   call (*tree.Tree).RemoveTips [else_the_names_on_the_command_line] tipfile == "none" && comptree == nil && randomtips <= 0 ==> a2 == args
+//@   call cmd.specificTips [reference_tree_first_compared_tree_second] a0 == reftree.Tree && a1 == comptree
+//@   call cmd.randomTips [the_requested_number_of_tips_is_sampled_from_the_reference_tree] a0 == reftree.Tree && a1 == randomtips
